@@ -10,10 +10,21 @@ V = LinExpr.var
 C = LinExpr.const
 
 
-def make_interp(P, e3=True):
+def make_interp(P, e3=True, cut_set=None):
     sets = {p: set(st.fnset().keys()) for p, st in ifunc.analyse(P).items()}
     import os
-    return Interp(P, Models(P, sets, e3=e3), {'debug': os.environ.get('MCAI_DEBUG')})
+    return Interp(P, Models(P, sets, e3=e3), {'debug': os.environ.get('MCAI_DEBUG'), 'trace_loops': os.environ.get('MCAI_TRACE_LOOPS'), 'cut_set': cut_set})
+
+
+def fresh_args(I, inst, st):
+    args = []
+    names = {}
+    for d in inst.j.get('debug', []):
+        if not d['p']['pr'] and 1 <= d['p']['l'] <= inst.arg_count:
+            names[d['p']['l']] = d['name']
+    for i in range(1, inst.arg_count + 1):
+        args.append(I.fresh_of_type(st, inst.locals[i], names.get(i, f'arg{i}')))
+    return args
 
 
 def root_args(I, inst, st, contract=None):
@@ -48,9 +59,9 @@ def raw_range_contract(start_idx, end_idx):
     return c
 
 
-def run_root(P, key, contract=None, e3=True, time_budget=120, I=None):
+def run_root(P, key, contract=None, e3=True, time_budget=120, I=None, cut_set=None):
     inst = P.instances[key]
-    I = I or make_interp(P, e3)
+    I = I or make_interp(P, e3, cut_set)
     st = State()
     t0 = time.time()
     I.deadline = t0 + time_budget
@@ -78,10 +89,11 @@ if __name__ == '__main__':
     P = ctx.prog(cfg)
     xs = P.find(pat)
     for inst in xs:
-        contract = None
-        if inst.path.endswith('_raw') and inst.is_unsafe_fn:
-            contract = raw_range_contract(inst.arg_count - 2, inst.arg_count - 1)
-        r = run_root(P, inst.key, contract)
+        from . import contracts
+        vs = contracts.variants_for(P, inst)
+        contract = vs[0][1]
+        from . import e2all
+        r = run_root(P, inst.key, contract, cut_set=None if '--nocut' in sys.argv else e2all.cut_set_for(P) - {inst.key})
         I = r['interp']
         print('===', inst.key, 'time %.2fs' % r['time'], 'error', r['error'], 'outcomes', r.get('outcomes'))
         print('   stats', I.stats)
